@@ -72,6 +72,10 @@ def gen_case(rng, idx, force=None):
     # closure-free function re-created over the SAME code object in further namespaces (different __globals__)
     c['namespaces'] = rng.choice([1, 2, 3]) if kind == 'toplevel' else 1
     c['global_write'] = kind == 'toplevel' and rng.random() < 0.5
+    # closed-over variables that are only REBOUND inside if / while / for bodies (never read by the function), in a
+    # function that may also declare (and write, at its top level) a module global
+    c['cf_write'] = ['x%d' % i for i in range(rng.choice([0, 0, 1, 2, 3]))] if has_closure and not is_lambda else []
+    c['decl_global'] = has_closure and not is_lambda and rng.random() < 0.5
     c['decorated'] = (rng.random() < 0.4) and not is_lambda and kind not in ('method', 'classmethod')
     c['doc'] = (rng.random() < 0.3) and not is_lambda
     c['future_annotations'] = rng.random() < 0.15
@@ -147,7 +151,9 @@ def normalise(c):
     if c['kind'] != 'nested' or not c['free']:
         c['sibling_conv'] = False
     c.setdefault('falsy_self', None); c.setdefault('namespaces', 1); c.setdefault('global_write', False)
-    c.setdefault('bind', 'bound')
+    c.setdefault('bind', 'bound'); c.setdefault('cf_write', []); c.setdefault('decl_global', False)
+    if kind == 'toplevel' or is_lambda:
+        c['cf_write'] = []; c['decl_global'] = False
     if kind != 'method':
         c['falsy_self'] = None
     if kind != 'toplevel':
@@ -163,12 +169,13 @@ def shape_key(c):
             len(c['free_nested']), len(c['free_write']), len(c['unused']), tuple(c['empty']), tuple(c['globals']),
             c['body'], c['super'], c['decorated'], c['directive'], c['clear'], c['api'], c['recursive'],
             c['future_annotations'], c['ret_ann'], c['sibling_conv'], c['ninst'], c.get('bind'),
-            c.get('falsy_self'), c.get('namespaces', 1), c.get('global_write', False))
+            c.get('falsy_self'), c.get('namespaces', 1), c.get('global_write', False),
+            len(c.get('cf_write', [])), c.get('decl_global', False))
 
 
 def nontrivial(c):
     return bool(c['free'] or c['free_nested'] or c['free_write'] or c['kind'] in ('method', 'classmethod')
-                or any(p['default'] for p in c['params']) or c.get('namespaces', 1) > 1)
+                or any(p['default'] for p in c['params']) or c.get('namespaces', 1) > 1 or c.get('cf_write'))
 
 
 # ------------------------------------------------------------------------------------------------ rendering
@@ -258,9 +265,9 @@ def render_function(c, name, indent, first=None, it=False, is_method=False):
     B = I + '    '
     if c['doc']:
         L.append(B + '"""docstring of the function."""')
-    if c['free_write']:
-        L.append(B + 'nonlocal ' + ', '.join(c['free_write']))
-    if c.get('global_write'):
+    if c['free_write'] or c.get('cf_write'):
+        L.append(B + 'nonlocal ' + ', '.join(c['free_write'] + c.get('cf_write', [])))
+    if c.get('global_write') or c.get('decl_global'):
         L.append(B + 'global gw')
     # a per-case constant: code objects of different cases never compare equal (malt's conversion cache is keyed by
     # code-object equality, which ignores the file name; sharing conversions across modules is C10's subject)
@@ -311,8 +318,24 @@ def render_function(c, name, indent, first=None, it=False, is_method=False):
             extra.append('comp%d' % j)
     for w in c['free_write']:
         L.append(B + '%s = (acc, %s)' % (w, firstp or '0'))
-    if c.get('global_write'):
+    if c.get('global_write') or c.get('decl_global'):
         L.append(B + 'gw = (acc, %s)' % (firstp or '0'))
+    # write-only rebinding of closed-over variables inside control flow (never read here or afterwards)
+    for j, x in enumerate(c.get('cf_write', [])):
+        form = j % 3
+        if form == 0:
+            L.append(B + 'if %s:' % (firstp or 'acc == 0'))
+            L.append(B + "    %s = ('if', acc)" % x)
+            L.append(B + 'else:')
+            L.append(B + "    %s = ('else', acc)" % x)
+        elif form == 1:
+            L.append(B + 'iw%d = 0' % j)
+            L.append(B + 'while iw%d < 2:' % j)
+            L.append(B + "    %s = ('while', iw%d, acc)" % (x, j))
+            L.append(B + '    iw%d = iw%d + 1' % (j, j))
+        else:
+            L.append(B + 'for jf%d in range(2):' % j)
+            L.append(B + "    %s = ('for', jf%d, acc)" % (x, j))
     items = result_items(c) + ['acc'] + extra
     if d == 'closure_used':
         items.append('mdir.__name__')
@@ -333,7 +356,7 @@ def render_lambda(c, it=False):
 
 def free_names(c):
     """All variables of the enclosing function the function under test closes over."""
-    out = list(c['free']) + list(c['free_nested']) + list(c['free_write'])
+    out = list(c['free']) + list(c['free_nested']) + list(c['free_write']) + list(c.get('cf_write', []))
     if c['directive'] in ('closure_used', 'closure_only'):
         out.append('mdir')
     if c['directive'] == 'arg_closure_only':
@@ -342,7 +365,7 @@ def free_names(c):
 
 
 def base_value(name):
-    return {'a': 10, 'n': 20, 'w': 30, 'u': 90}.get(name[0], 0) + int(name[1:]) if name[0] in 'anwu' else None
+    return {'a': 10, 'n': 20, 'w': 30, 'u': 90, 'x': 40}.get(name[0], 0) + int(name[1:]) if name[0] in 'anwux' else None
 
 
 def render(c):
@@ -459,13 +482,16 @@ def _accessors(c, I, per_instance):
         L.append(I + '    %s = v' % n)
         L.append(I + 'def get_%s():' % n)
         L.append(I + '    return %s' % n)
+    gwg = ["'gw': (lambda: globals()['gw'])"] if c.get('decl_global') else []
     if per_instance:
         L.append(I + "out['inst_setters'].append({%s})" % ', '.join("'%s': set_%s" % (n, n) for n in names))
-        L.append(I + "out['inst_getters'].append({%s})" % ', '.join("'%s': get_%s" % (n, n) for n in names))
+        L.append(I + "out['inst_getters'].append({%s})" % ', '.join(["'%s': get_%s" % (n, n) for n in names] + gwg))
     else:
         for n in names:
             L.append(I + "out['setters']['%s'] = set_%s" % (n, n))
             L.append(I + "out['getters']['%s'] = get_%s" % (n, n))
+        if gwg:
+            L.append(I + "out['getters']['gw'] = lambda: globals()['gw']")
     return L
 
 
